@@ -98,3 +98,89 @@ Theorem C09_res_call_returns : forall cb g data len c k,
   ts_entry_ok len c -> connp_res_data_fuel cb g (rs_res_fuel len + k) data len c = connp_res_data cb g data len c.
 Proof. exact res_data_fuel_sufficient. Qed.
 Print Assumptions C09_res_call_returns.
+
+(* ==== the two remaining clauses of the property, as theorems (PCounters.v, PHandover*.v; agent) ==== *)
+Require Import Htp.Spec.SHandover Htp.Proof.PCounters Htp.Proof.PHandoverGen Htp.Proof.PHandoverRes Htp.Proof.PHandoverReq Htp.Proof.PHandover.
+(* (A) BYTE COUNTERS, unconditional (every callback oracle, configuration and parser state; gaps included): a data call adds its length to the counter of its own
+   direction exactly when it passes the entry guards (req_door / res_door: the direction is not in STOP / ERROR and has not lost its transaction outside IDLE),
+   and never touches the other counter; a call answered DATA, DATA_OTHER or TUNNEL did pass them; over a run the counter is the sum over the accepted calls,
+   which lies between 0 and the bytes offered *)
+Theorem C09_counters_req : forall cb g data len c,
+  let c' := fst (connp_req_data cb g data len c) in
+  c_in_data_counter c' = c_in_data_counter c + (if req_door c then Z.of_nat len else 0) /\ c_out_data_counter c' = c_out_data_counter c.
+Proof. exact req_data_counters. Qed.
+Theorem C09_counters_res : forall cb g data len c,
+  let c' := fst (connp_res_data cb g data len c) in
+  c_out_data_counter c' = c_out_data_counter c + (if res_door c then Z.of_nat len else 0) /\ c_in_data_counter c' = c_in_data_counter c.
+Proof. exact res_data_counters. Qed.
+Theorem C09_accepted_means_counted_req : forall cb g data len c,
+  let rc := snd (connp_req_data cb g data len c) in
+  rc = c_HTP_STREAM_DATA \/ rc = c_HTP_STREAM_DATA_OTHER \/ rc = c_HTP_STREAM_TUNNEL -> req_door c = true.
+Proof. exact req_data_accepted. Qed.
+Theorem C09_accepted_means_counted_res : forall cb g data len c,
+  let rc := snd (connp_res_data cb g data len c) in
+  rc = c_HTP_STREAM_DATA \/ rc = c_HTP_STREAM_DATA_OTHER \/ rc = c_HTP_STREAM_TUNNEL -> res_door c = true.
+Proof. exact res_data_accepted. Qed.
+Theorem C09_counters_run : forall cb g ops c,
+  c_in_data_counter (fst (cp_run cb g c ops)) = c_in_data_counter c + run_in_bytes cb g c ops /\
+  c_out_data_counter (fst (cp_run cb g c ops)) = c_out_data_counter c + run_out_bytes cb g c ops.
+Proof. exact cp_run_counters. Qed.
+Theorem C09_counters_run_bounds : forall cb g ops c,
+  0 <= run_in_bytes cb g c ops <= ops_in_offered ops /\ 0 <= run_out_bytes cb g c ops <= ops_out_offered ops.
+Proof. exact cp_run_counters_bounds. Qed.
+Print Assumptions C09_counters_req.
+Print Assumptions C09_counters_run.
+Print Assumptions C09_counters_run_bounds.
+
+(* (B) HAND-OVER PROGRESS. Local facts, unconditional: a response call answers DATA_OTHER only after wrapping its response up (idle, detached); from there
+   the next response call on data consumes at least one byte or answers something else; a request call answers DATA_OTHER only in
+   REQ_CONNECT_WAIT_RESPONSE. Hence no ping-pong: after a response yield and ANY one request call, the next response call is not (DATA_OTHER, 0). *)
+Theorem C09_res_yield_is_idle : forall cb g data len c c',
+  connp_res_data cb g data len c = (c', c_HTP_STREAM_DATA_OTHER) ->
+  c_out_state c' = RES_IDLE /\ c_out_tx c' = None /\ c_out_status c' = c_HTP_STREAM_DATA_OTHER.
+Proof. exact res_data_other_idle. Qed.
+Theorem C09_res_idle_not_stuck : forall cb g d c c',
+  c_out_state c = RES_IDLE -> c_out_status c <> c_HTP_STREAM_CLOSED -> d <> [] ->
+  connp_res_data cb g (Some d) (length d) c = (c', c_HTP_STREAM_DATA_OTHER) -> (1 <= k_read (c_out c'))%nat.
+Proof. exact res_idle_not_stuck. Qed.
+Theorem C09_req_waits_only_for_connect : forall cb g data len c c',
+  connp_req_data cb g data len c = (c', c_HTP_STREAM_DATA_OTHER) ->
+  c_in_state c' = REQ_CONNECT_WAIT_RESPONSE /\ c_in_status c' = c_HTP_STREAM_DATA_OTHER.
+Proof. exact req_data_other_state. Qed.
+Theorem C09_req_stuck_only_waiting_for_status_line : forall cb g d c c',
+  rq_inv c -> d <> [] -> c_in_status c <> c_HTP_STREAM_CLOSED ->
+  connp_req_data cb g (Some d) (length d) c = (c', c_HTP_STREAM_DATA_OTHER) -> k_read (c_in c') = 0%nat ->
+  c_in_state c = REQ_CONNECT_CHECK \/
+  (c_in_state c = REQ_CONNECT_WAIT_RESPONSE /\ t_response_progress (rq_tx c) <= c_HTP_RESPONSE_LINE).
+Proof. exact req_data_other_zero. Qed.
+Theorem C09_no_pingpong : forall cb g c ds c1 n1 dq c2 rc2 n2 ds' c3 rc3 n3,
+  hs_call cb g c HS ds = (c1, c_HTP_STREAM_DATA_OTHER, n1) ->
+  hs_call cb g c1 HQ dq = (c2, rc2, n2) ->
+  ds' <> [] -> hs_call cb g c2 HS ds' = (c3, rc3, n3) ->
+  ~ (rc3 = c_HTP_STREAM_DATA_OTHER /\ n3 = O).
+Proof. exact handover_no_pingpong. Qed.
+(* Global: the hand-over DRIVER (Spec/SHandover.v: two queues of pending chunks; offer the head chunk of the scheduled direction; on DATA drop it; on DATA_OTHER
+   keep the unconsumed suffix and turn to the other direction; on ERROR / STOP / CLOSED / TUNNEL stop feeding that direction) never runs out of its budget of
+   4 * (pending bytes + pending chunks) + 4 calls -- for EVERY callback oracle, configuration, schedule, pair of queues, and from EVERY parser state (no
+   invariant needed): at most three calls in a row make no progress. When it stops it is done, or blocked only because the request side waits for a
+   response of which nothing is available. *)
+Theorem C09_handover_terminates : forall cb g sched c q s, fst (fst (hs_run cb g sched c q s)) <> HFuel.
+Proof. exact handover_terminates. Qed.
+Theorem C09_handover_done : forall cb g sched c q s s' l,
+  hs_run cb g sched c q s = (HDone, s', l) ->
+  (h_qlive s' = false \/ h_q s' = []) /\ (h_slive s' = false \/ h_s s' = []).
+Proof. exact handover_done. Qed.
+Theorem C09_handover_blocked : forall cb g sched c q s s' l,
+  hs_run cb g sched c q s = (HBlocked, s', l) ->
+  (h_slive s' = false \/ h_s s' = []) /\
+  c_in_state (h_st s') = REQ_CONNECT_WAIT_RESPONSE /\ c_in_status (h_st s') = c_HTP_STREAM_DATA_OTHER /\
+  exists ch rest, ch <> [] /\ h_q s' = ch :: rest.
+Proof. exact handover_blocked. Qed.
+Print Assumptions C09_no_pingpong.
+Print Assumptions C09_handover_terminates.
+Print Assumptions C09_handover_blocked.
+(* two literal readings of the progress clause are false of the code (bounded, not endless: not findings): *)
+Theorem C09_request_moves_after_yield_refuted : ~ handover_request_moves_after_yield_full.
+Proof. exact handover_request_moves_after_yield_refuted. Qed.
+Theorem C09_no_mutual_stuck_refuted : ~ handover_no_mutual_stuck_full.
+Proof. exact handover_no_mutual_stuck_refuted. Qed.
